@@ -1,7 +1,9 @@
 package main
 
 import (
+	"bytes"
 	"context"
+	"encoding/binary"
 	"io"
 	"reflect"
 
@@ -34,6 +36,25 @@ func init() {
 				disp = true
 				if p, err := md.MarshalMTData2Packet(id); err == nil {
 					enc = len(p.Data())
+					// the encoder's size does not depend on the value: a second value with every field non-zero
+					v2 := reflect.New(reflect.TypeOf(md).Elem()).Interface().(xsens.MeasurementData)
+					pat := make([]byte, 512)
+					for i := range pat {
+						pat[i] = byte(1 + i%7)
+					}
+					if binary.Read(bytes.NewReader(pat), binary.BigEndian, v2) == nil {
+						enc2 := -3 // a panic
+						protect(func() {
+							if p2, err := v2.MarshalMTData2Packet(id); err == nil {
+								enc2 = len(p2.Data())
+							} else {
+								enc2 = enc
+							}
+						})
+						if enc2 != enc {
+							enc = enc2
+						}
+					}
 				}
 				try := func(n int, want bool) bool {
 					if n < 0 {
@@ -49,6 +70,17 @@ func init() {
 					protect(func() { ok2 = fresh2.UnmarshalMTData2Packet(xsens.MTData2Packet(roomy(p, 24))) == nil })
 					if ok != ok2 {
 						return !want // acceptance depends on what lies behind the packet: report the unwanted answer
+					}
+					if !want && n+1 < 256 {
+						// the same short packet cut out of a longer one by re-slicing: the length byte still announces one byte
+						// more, and that byte lies behind the slice's end
+						full := roomy(append([]byte{byte(v >> 8), byte(v), byte(n + 1)}, make([]byte, n+1)...), 24)
+						fresh3 := reflect.New(reflect.TypeOf(md).Elem()).Interface().(xsens.MeasurementData)
+						ok3 := true // a panic counts as the unwanted answer
+						protect(func() { ok3 = fresh3.UnmarshalMTData2Packet(xsens.MTData2Packet(full[:3+n])) == nil })
+						if ok3 {
+							return true
+						}
 					}
 					return ok
 				}
